@@ -39,7 +39,8 @@ pub struct Case {
 
 // ("p::" is exactly a scope prefix; "b#1" and "q r" are names that a script-level re-parse would cut)
 const NAMES: [&str; 11] = ["a", "b", "c", "p::x", "p::y", "q", "p", "ap", "p::", "b#1", "q r"];
-const VALUES: [&str; 10] = ["1", "", "hello", "two words", "h\u{e9}llo \u{6f22}", "false", "handle:abcdefghij0123456789", "p::x", "--copy", "a"];
+// ("or", "and", "not": as VALUES of variables these are plain text)
+const VALUES: [&str; 13] = ["1", "", "hello", "two words", "h\u{e9}llo \u{6f22}", "false", "handle:abcdefghij0123456789", "p::x", "--copy", "a", "or", "and", "not"];
 
 #[derive(Clone, Debug, Default)]
 struct Frame {
@@ -364,7 +365,17 @@ impl Prop for C11 {
                 init.push((format!("w{}", k), format!("val{}", k)));
             }
             init.push(("longv".to_string(), "abcdefghij".repeat(8)));
-            let copy: Vec<String> = (0..12).map(|k| format!("w{}", k)).collect();
+            // copy lists: 12 names in order, or (one time in three) 33-70 names in no particular order with repeats
+            let copy: Vec<String> = if rng.chance(1, 3) {
+                for k in 27..80 {
+                    init.push((format!("w{}", k), format!("val{}", k)));
+                }
+                let mut v: Vec<String> = (0..33 + rng.usize(38)).map(|_| format!("w{}", rng.usize(80))).collect();
+                rng.shuffle(&mut v);
+                v
+            } else {
+                (0..12).map(|k| format!("w{}", k)).collect()
+            };
             let depth = if rng.chance(1, 3) { 65 + rng.usize(70) } else { 6 + rng.usize(4) };
             let mut pre: Vec<Op> = (0..depth).map(|_| Op::Push(Some(copy.clone()))).collect();
             pre.extend(ops.drain(..));
